@@ -59,7 +59,7 @@ def run_one(d, name):
     return '%-40s MISSED (rc=%d)\n%s' % (name, r.returncode, out[-600:]), 1
 
 
-def run(names, jobs=4):
+def run(names, jobs=8):
     import concurrent.futures
     import queue
     jobs = max(1, min(jobs, len(names)))
